@@ -206,6 +206,7 @@ impl Cfg {
         TAGS.iter().map(|t| f.filter(t) == FilterResult::Error).collect()
     }
     /// the opt-outs the property excludes: a filter demoting one of the tags the argument needs, or the dev flag
+    #[allow(dead_code)]
     fn strict(&self) -> bool {
         let b = self.filter_bits();
         !self.dev && b[2..].iter().all(|x| *x)
@@ -758,9 +759,12 @@ impl C08Onchain {
         for c in &classes {
             co.tags.insert(format!("class:{}", match c { Class::Channel(_) => "Channel".to_string(), x => format!("{:?}", x) }));
         }
-        let strict = env.cfg.strict();
+        // every monitor is conditioned on exactly the opt-out that concerns it (the policy filter bit of its tag, the
+        // dev flag for the fee bound) - a filter demoting one tag must not switch the other conjuncts off
+        let bits = env.cfg.filter_bits();
+        let fee_strict = !env.cfg.dev && bits[9];
         let unknown_truth: Vec<usize> = classes.iter().enumerate().filter(|(_, c)| **c == Class::Unknown).map(|(i, _)| i).collect();
-        if strict {
+        {
             if let Some(ix) = &unknown_reported {
                 if *ix != unknown_truth {
                     co.violations.push(Violation { kind: "unknown-indices-wrong".into(), desc: format!("reported unknown outputs {:?}, really unknown {:?}", ix, unknown_truth), at });
@@ -779,11 +783,13 @@ impl C08Onchain {
                 }
             }
             let nb = sum_in.saturating_sub(ben);
-            if strict {
+            {
                 for (i, c) in classes.iter().enumerate() {
                     match c {
                         // an Unknown output may be there if (and only if) it was reported and the approver accepted it
                         Class::Unknown if !passed_ok => {}
+                        // "output[i] is unknown" for a path that matches nothing is a filterable policy error
+                        Class::Bogus if !bits[3] => {}
                         Class::Unknown | Class::Bogus | Class::Fault => co.violations.push(Violation {
                             kind: "unknown-output-accepted".into(),
                             desc: format!("output {} ({} sat, {}) is neither wallet, allowlisted nor a funded channel ({:?}) but the tx was accepted", i, spec.outs[i].value, spec.outs[i].desc.to_string(), c),
@@ -792,12 +798,12 @@ impl C08Onchain {
                         Class::Channel(k) => {
                             let ch = &spec.chans[*k];
                             let mut bad = vec![];
-                            if spec.outs[i].value != ch.value { bad.push("channel-funding-wrong-value"); }
-                            if !truths[i].script_match { bad.push("channel-funding-wrong-script"); }
-                            if !ch.outbound { bad.push("channel-funding-inbound"); }
-                            if ch.push_msat / 1000 > 0 { bad.push("channel-funding-with-push"); }
-                            if ch.nhc != 1 && !ch.real { bad.push("channel-funding-not-countersigned"); }
-                            if !(spec.segwit.len() == spec.n_in && spec.segwit.iter().all(|b| *b)) { bad.push("funding-non-segwit-input-accepted"); }
+                            if bits[4] && spec.outs[i].value != ch.value { bad.push("channel-funding-wrong-value"); }
+                            if bits[5] && !truths[i].script_match { bad.push("channel-funding-wrong-script"); }
+                            if bits[7] && !ch.outbound { bad.push("channel-funding-inbound"); }
+                            if bits[8] && ch.push_msat / 1000 > 0 { bad.push("channel-funding-with-push"); }
+                            if bits[6] && ch.nhc != 1 && !ch.real { bad.push("channel-funding-not-countersigned"); }
+                            if bits[2] && !(spec.segwit.len() == spec.n_in && spec.segwit.iter().all(|b| *b)) { bad.push("funding-non-segwit-input-accepted"); }
                             for b in bad {
                                 co.violations.push(Violation { kind: b.into(), desc: format!("accepted funding output {} = {} sat for channel {:?}", i, spec.outs[i].value, ch), at });
                             }
@@ -813,7 +819,9 @@ impl C08Onchain {
                     }
                 }
                 // (no fee bound applies to a tx whose unknown destinations were explicitly approved)
-                if passed_ok && w > 0 && (nb * 1000 + 999) / w > env.cfg.max_feerate as u128 {
+                // loss = inputs - own outputs - funded channel value NET OF PUSH: whatever else the filter tolerates, value
+                // handed to the counterparty or to nobody counts as fee
+                if fee_strict && passed_ok && w > 0 && (nb * 1000 + 999) / w > env.cfg.max_feerate as u128 {
                     co.violations.push(Violation {
                         kind: "onchain-fee-exceeds-bound".into(),
                         desc: format!("accepted: inputs {} - beneficial {} = {} sat over weight {} is {} sat/kw > max {}", sum_in, ben, nb, w, (nb * 1000 + 999) / w, env.cfg.max_feerate),
@@ -831,10 +839,10 @@ impl C08Onchain {
                     VelocityControlIntervalType::Unlimited => (u64::MAX, 0),
                 };
                 let msat = (nb * 1000).min(u64::MAX as u128) as u64;
-                if passed_ok {
+                if fee_strict && passed_ok {
                     env.log.push((spec.now, msat));
                 }
-                if passed_ok && limit != u64::MAX {
+                if fee_strict && passed_ok && limit != u64::MAX {
                     if let Some((t0, sum)) = window_violation(&env.log, wlen, limit) {
                         co.violations.push(Violation { kind: "fee-velocity-exceeded".into(), desc: format!("fees of {} msat approved within window [{}, {}] with limit {}", sum, t0, t0 + wlen, limit), at });
                     }
@@ -863,6 +871,7 @@ fn gen_cfg(rng: &mut Rng) -> Cfg {
         0 => "p".to_string(),
         1 => "x".to_string(),
         2 | 3 | 4 => format!("w{}", rng.below(10)),
+        5 => "w8".to_string(),
         _ => "d".to_string(),
     };
     let style = if rng.chance(1, 4) { 'l' } else { 'n' };
@@ -939,7 +948,12 @@ fn gen_tx(rng: &mut Rng, cfg: &Cfg, now: u64) -> TxSpec {
             let value = value.min(u64::MAX / 1000 - 1);
             let cv = match rng.below(8) { 0 => value + 1, 1 => value.saturating_sub(1), _ => value };
             let outbound = !rng.chance(1, 8);
-            let push = match rng.below(10) { 0 => 999, 1 => 1000, 2 => 5_000_000, _ => 0 };
+            let push = if !cfg.filter_bits()[8] {
+                // the push check is demoted to a warning: pushes are tolerated, and must then count as fee
+                match rng.below(5) { 0 => 0, 1 => 1000, 2 => 5_000_000, 3 => 999, _ => rng.below(cv.saturating_mul(1000).min(u64::MAX / 2) + 1) }
+            } else {
+                match rng.below(10) { 0 => 999, 1 => 1000, 2 => 5_000_000, _ => 0 }
+            };
             let push = if push > cv.saturating_mul(1000) { 0 } else { push };
             let nhc = match rng.below(8) { 0 => 0, 1 => 2, _ => 1 };
             let real = cfg.max_feerate >= 25_000 && cfg.max_feerate < u32::MAX && nhc == 1 && outbound && push == 0 && cv == value && (10_000..=5_000_000).contains(&value) && rng.chance(1, 3);
@@ -1163,6 +1177,10 @@ impl Group for C08Onchain {
             // channel funding + unknown destination + non-segwit input through the approving approver: refused;
             // with a segwit input: reported, approved, signed; declining approver: declined
             c("node 333333;0;d;n;-;- 1000000000 d|tx 333333;0;d;n;-;- 1600000000 2 1 0 1 5001000:s N 3 2:3000000:1:0:1 W/1/w@1=1500000,F/21/w@-=500000,C0@-=3000000|tx 333333;0;d;n;-;- 1600000001 2 1 1 1 5001000:w N 3 2:3000000:1:0:1 W/1/w@1=1500000,F/21/w@-=500000,C0@-=3000000|tx 333333;0;d;n;-;- 1600000002 2 2 1 1 5001000:w N 3 2:3000000:1:0:1 W/1/w@1=1500000,F/21/w@-=500000,C0@-=3000000"),
+            // only policy-onchain-no-channel-push demoted to a warning: the push still counts as fee (900000 sat pushed on top of
+            // a 1000 sat fee exceeds 333333 sat/kw and is refused; a 3000 sat push has room and is counted)
+            c("node 333333;0;w8;n;-;- 1000000000 d|tx 333333;0;w8;n;-;- 1600000000 2 0 1 1 1001000:w N 1 0:1000000:1:900000000:1 C0@-=1000000|tx 333333;0;w8;n;-;- 1600000001 2 0 1 1 1000100:w N 1 0:1000000:1:0:1 C0@-=1000000"),
+            c("node 333333;0;w8;n;-;- 1000000000 d|tx 333333;0;w8;n;-;- 1600000000 2 0 1 1 1001000:w N 1 0:1000000:1:3000000:1 C0@-=1000000"),
             // unknown output next to a wallet output, through the approver (declines)
             c("node 333333;0;d;n;F/1/w;- 1000000000 d|tx 333333;0;d;n;F/1/w;- 1600000000 2 2 1 1 100000:w N 3 - W/1/w@1=50000,F/2/w@-=20000,F/1/w@-=29000"),
             // inbound / pushed / not yet counter-signed channels
